@@ -282,6 +282,24 @@ func runTwoClause(r *common.Run, st *stats) {
 	r.Set("two_clause_graphs", len(graphs))
 }
 
+// ---- time bounds taken from bindings of an earlier clause ---------------------------------
+
+func runBoundAliases(r *common.Run, st *stats) {
+	shapes := bqlm.BoundAliasShapes()
+	graphs := bqlm.BoundAliasGraphs()
+	for gi := range graphs {
+		store := bqlm.NewStore(graphs[gi])
+		for si, cs := range shapes {
+			for _, cSize := range []int{0, 2} {
+				q := &bqlm.Query{From: []string{"?g"}, Where: cs, Proj: bqlm.SelectAll(cs)}
+				v := bqlm.Compare(q, store, graphs[gi], cSize)
+				report(r, st, "boundalias", fmt.Sprintf("boundalias:%d:%d", si, gi), q, graphs[gi], v)
+			}
+		}
+	}
+	r.Set("bound_alias_shapes", len(shapes))
+}
+
 // ---- two clauses with extraction aliases shared across clauses ---------------------------
 
 // aliasClauses: a small clause vocabulary for the alias exploration.
@@ -413,6 +431,12 @@ func replay(raw json.RawMessage) (bool, string) {
 		data := map[string][]*triple.Triple{"?g": bqlm.Subset(bqlm.Universe8(), n[1])}
 		v := bqlm.Compare(q, bqlm.NewStore(data), data, 0)
 		return v.Ok, v.Detail
+	case "boundalias":
+		cs := bqlm.BoundAliasShapes()[n[0]]
+		g := bqlm.BoundAliasGraphs()[n[1]]
+		q := &bqlm.Query{From: []string{"?g"}, Where: cs, Proj: bqlm.SelectAll(cs)}
+		v := bqlm.Compare(q, bqlm.NewStore(g), g, 0)
+		return v.Ok, v.Detail
 	case "alias":
 		base := aliasClauses()
 		named := bqlm.Namings([]bqlm.Clause{base[n[0]], base[n[1]]})[n[2]]
@@ -446,6 +470,7 @@ func main() {
 	r.Replayer("multi", replay)
 	r.Replayer("alias", replay)
 	r.Replayer("two-split", replay)
+	r.Replayer("boundalias", replay)
 	r.MaybeReplay()
 	// validate the oracle itself against the maintainers' compliance stories
 	nOK, nSkip, verr := bqlm.ValidateAgainstStories("/repo/examples/compliance")
@@ -458,6 +483,7 @@ func main() {
 	runOneClause(r, st)
 	runTwoClause(r, st)
 	runTwoClauseAliases(r, st)
+	runBoundAliases(r, st)
 	r.Set("evaluations", int(st.evals))
 	r.Set("accepted_by_parser", int(st.accepted))
 	r.Set("distinct_nontrivial", int(st.nontrivial))
